@@ -1611,6 +1611,8 @@ static WUR iwrc _sblk_at2(struct iwlctx *lx, off_t addr, sblk_flags_t flgs, stru
       if (sblk->n[i]) {
         ++sblk->lvl;
       } else {
+        // `sblk` may be a recycled slot: all levels are written back, the ones behind the first zero must not keep old links
+        memset(&sblk->n[i], 0, sizeof(sblk->n[0]) * (SLEVELS - i));
         break;
       }
     }
